@@ -498,7 +498,7 @@ func wrapMJTextContent(content string) string {
 			continue
 		}
 
-		closeIdx := indexCI(b, []byte(closeNeedle), endStart)
+		closeIdx, closeEnd := indexMJTextClose(b, endStart)
 		if closeIdx < 0 {
 			out.Write(b[endStart:])
 			break
@@ -523,10 +523,31 @@ func wrapMJTextContent(content string) string {
 
 		out.WriteString(closeNeedle)
 
-		pos = closeIdx + len(closeNeedle)
+		pos = closeEnd
 	}
 
 	return out.String()
+}
+
+// indexMJTextClose finds the next </mj-text> end tag at or after 'from'. XML allows white space
+// between the name and '>' ("</mj-text >", or the '>' on the next line), so that form is an end tag
+// too. It returns the index of '<' and the index just after '>', or -1, -1.
+func indexMJTextClose(b []byte, from int) (start, end int) {
+	stem := []byte(closeNeedle[:len(closeNeedle)-1])
+	for {
+		i := indexCI(b, stem, from)
+		if i < 0 {
+			return -1, -1
+		}
+		j := i + len(stem)
+		for j < len(b) && (b[j] == ' ' || b[j] == '\t' || b[j] == '\r' || b[j] == '\n') {
+			j++
+		}
+		if j < len(b) && b[j] == '>' {
+			return i, j + 1
+		}
+		from = i + 1
+	}
 }
 
 // findTagEnd returns the index *after* the '>' of the start tag at 'start'
